@@ -310,6 +310,47 @@ def body(chk):
             chk.report(site_of(case), why, {"kind": "oracle", "op": op, "a": a, "b": b, "observed": out,
                                             "expected": str(expected(op, a, b))[:400],
                                             "replay_cmd": "/venv/bin/python tools/check_c01.py --replay <this file>"})
+    # ---- results that are HELD while further operations run, and results fed into the next operation (same shapes throughout):
+    # every operation of a batch is evaluated first, the values are read and decided only afterwards
+    rng = chk.rng
+    for rd in range(12 if tier == "quick" else 120):
+        k = rng.randint(2, 4)
+        shape = rng.choice(["k", "2d"])
+        dims = (rng.randint(1, 2), k)
+
+        def arr_interval(kinds):
+            if shape == "k":
+                return {"kind": "I", "shape": "k", "els": [sign_class(rng, rng.choice(kinds)) for _ in range(k)]}
+            return {"kind": "I", "shape": "2d", "dims": dims, "els": [sign_class(rng, rng.choice(kinds)) for _ in range(dims[0] * dims[1])]}
+        batch, held = [], []
+        for j in range(3):
+            op = rng.choice(["Mul", "Div", "Mul", "Add", "Sub"])
+            a, b = arr_interval(range(9)), arr_interval([0, 1, 6, 7] if op == "Div" else range(9))
+            try:
+                held.append(PYOP[op](build(a), build(b)))
+                batch.append((op, a, b))
+            except Exception as e:
+                chk.report(f"Interval.{op}:held", f"valid operands raise {type(e).__name__}", {"kind": "oracle", "op": op, "a": a, "b": b})
+        # a chain: the first held result is an operand of a further operation
+        if held:
+            op2 = rng.choice(["Mul", "Div", "Sub"])
+            c = arr_interval([0, 1, 6, 7] if op2 == "Div" else range(9))
+            r0 = held[0]
+            a0 = {"kind": "I", "shape": shape, "dims": dims, "els": list(zip([float(x) for x in np.asarray(r0.lo).ravel()], [float(x) for x in np.asarray(r0.hi).ravel()]))}
+            try:
+                held.append(PYOP[op2](r0, build(c)))
+                batch.append((op2, a0, c))
+            except Exception as e:
+                chk.report(f"Interval.{op2}:chain", f"valid operands raise {type(e).__name__}", {"kind": "oracle", "op": op2, "a": a0, "b": c})
+        for j, (case, r) in enumerate(zip(batch, held)):
+            lo, hi = np.asarray(r.lo, dtype=float), np.asarray(r.hi, dtype=float)
+            out = ("ok", lo.shape, [float(x) for x in lo.ravel()], [float(x) for x in hi.ravel()])
+            chk.count("held-results", key=("held", rd, j))
+            why = oracle(case, out)
+            if why:
+                chk.report(f"Interval.{case[0]}:held", f"operation {j + 1} of {len(batch)} evaluated in a row on array operands of one shape, values read after the last one: {why}",
+                           {"kind": "oracle", "sequence": [{"op": c_[0], "a": c_[1], "b": c_[2]} for c_ in batch], "index": j, "observed": out})
+                break
     for s in [0, 400, 900, 2500]:
         if s < len(cases):
             chk.sample({"op": cases[s][1][0], "a": cases[s][1][1], "b": cases[s][1][2], "impl": outs[s]})
